@@ -50,7 +50,6 @@ def LL(L):
 def R(L):
     return (forall(lambda b=_LinkBox: implies(old(allocated(b) and inU(L, b)), inU(L, b) and b.g_pos == old(b.g_pos))) and
             forall(lambda b=_LinkBox: implies(old(allocated(b) and tomb(L, b)), tomb(L, b) and b.next is old(b.next) and b.prev is old(b.prev))) and
-            forall(lambda b=_LinkBox: implies(inU(L, b) and not old(allocated(b)), live(L, b))) and
             L._root is old(L._root))
 
 def others_untouched(L):
@@ -100,3 +99,63 @@ def build(eng, tier):
                  "self._length == old(self._length) + ite(old(new_value in D(self)) or old(box.value) is new_value, 0, 1)"],
         raises={"TypeError": [unchanged, "new_value is None"],
                 "ValueError": [unchanged, "box.owning_list is not self"]}))
+
+    INS_REQ = ["LL(self)", "nonnull(box)", "implies(box.owning_list is self, lor(self, box))"]
+    INS_ENS = ["LL(self)", "R(self)", "others_untouched(self)", "nonnull(result) and (result is box or lor(self, result))",
+               "implies(old(box.value) is not new_value, new_value in D(self) and D(self)[new_value] is result and result.prev is box)",
+               "forall(lambda v=ref: implies(v is not new_value, (v in D(self)) == old(v in D(self))))",
+               "implies(box.owning_list is self, new_value in D(self))",
+               "implies(result is box, %s)" % unchanged,
+               "result is box or fresh(result)",
+               "unchanged('DoublyLinkedSet._root', 'DoublyLinkedSet._value_ids_to_boxes')"]
+    INS_RAISES = {"TypeError": [unchanged, "new_value is None"], "ValueError": [unchanged, "box.owning_list is not self"]}
+    eng.functions[f"{LL_MOD}.DoublyLinkedSet._insert_one_after"] = FnDecl(
+        f"{LL_MOD}.DoublyLinkedSet._insert_one_after", "contract", LL_MOD, "DoublyLinkedSet._insert_one_after",
+        requires=INS_REQ, ensures=INS_ENS, raises=INS_RAISES, ret=TRef("_LinkBox"), modifies=BOXF + LIST_F + ["$alloc"])
+    # re-state the target with exactly the clauses its callers rely on (checked against the body above as well)
+    t_ins = [t for t in eng.targets if t.name == "DoublyLinkedSet._insert_one_after"][0]
+    t_ins.ensures += [e for e in INS_ENS if e not in t_ins.ensures]
+
+    SEQ = TSeq(TRef(None))
+    MANY_INV = ["LL(self)", "R(self)", "others_untouched(self)", "nonnull(insertion_point)",
+                "insertion_point is box or lor(self, insertion_point)",
+                "implies(insertion_point is box, %s)" % unchanged,
+                "unchanged('DoublyLinkedSet._root', 'DoublyLinkedSet._value_ids_to_boxes')"]
+    eng.add_target(Target("DoublyLinkedSet._insert_many_after", mod=LL_MOD, qual="DoublyLinkedSet._insert_many_after",
+        self_cls="DoublyLinkedSet", params=dict(box=TRef("_LinkBox"), new_values=SEQ),
+        requires=INS_REQ, ensures=["LL(self)", "R(self)", "others_untouched(self)"],
+        raises={"TypeError": ["LL(self)", "R(self)", "others_untouched(self)"], "ValueError": ["LL(self)", "R(self)", "others_untouched(self)"]},
+        loops={0: LoopSpec(invariant=MANY_INV, modifies=BOXF + LIST_F + ["$alloc"])}))
+    MANY_ENS = ["LL(self)", "R(self)", "others_untouched(self)", "unchanged('DoublyLinkedSet._root', 'DoublyLinkedSet._value_ids_to_boxes')"]
+    eng.functions[f"{LL_MOD}.DoublyLinkedSet._insert_many_after"] = FnDecl(
+        f"{LL_MOD}.DoublyLinkedSet._insert_many_after", "contract", LL_MOD, "DoublyLinkedSet._insert_many_after",
+        requires=INS_REQ, ensures=MANY_ENS, raises={"TypeError": MANY_ENS, "ValueError": MANY_ENS},
+        modifies=BOXF + LIST_F + ["$alloc"])
+
+    eng.add_target(Target("DoublyLinkedSet.append", mod=LL_MOD, qual="DoublyLinkedSet.append", self_cls="DoublyLinkedSet",
+        params=dict(value=TRef(None)), requires=["LL(self)"],
+        ensures=["LL(self)", "R(self)", "others_untouched(self)", "value in D(self)",
+                 "forall(lambda v=ref: implies(v is not value, (v in D(self)) == old(v in D(self))))"],
+        raises={"TypeError": [unchanged, "value is None"]}))
+    APP_ENS = ["LL(self)", "R(self)", "others_untouched(self)", "unchanged('DoublyLinkedSet._root', 'DoublyLinkedSet._value_ids_to_boxes')"]
+    eng.functions[f"{LL_MOD}.DoublyLinkedSet.append"] = FnDecl(
+        f"{LL_MOD}.DoublyLinkedSet.append", "contract", LL_MOD, "DoublyLinkedSet.append",
+        requires=["LL(self)"], ensures=APP_ENS + ["value in D(self)"], raises={"TypeError": [unchanged, "value is None"]},
+        modifies=BOXF + LIST_F + ["$alloc"])
+    [t for t in eng.targets if t.name == "DoublyLinkedSet.append"][0].ensures += [APP_ENS[3]]
+
+    eng.add_target(Target("DoublyLinkedSet.extend", mod=LL_MOD, qual="DoublyLinkedSet.extend", self_cls="DoublyLinkedSet",
+        params=dict(values=SEQ), requires=["LL(self)"],
+        ensures=["LL(self)", "R(self)", "others_untouched(self)"],
+        raises={"TypeError": ["LL(self)", "R(self)", "others_untouched(self)"]},
+        loops={0: LoopSpec(invariant=APP_ENS, modifies=BOXF + LIST_F + ["$alloc"])}))
+
+    for nm in ("insert_after", "insert_before"):
+        eng.add_target(Target(f"DoublyLinkedSet.{nm}", mod=LL_MOD, qual=f"DoublyLinkedSet.{nm}", self_cls="DoublyLinkedSet",
+            params=dict(value=TRef(None), new_values=SEQ), requires=["LL(self)"],
+            ensures=["LL(self)", "R(self)", "others_untouched(self)"],
+            raises={"TypeError": ["LL(self)", "R(self)", "others_untouched(self)"],
+                    "ValueError": ["LL(self)", "R(self)", "others_untouched(self)"]}))
+
+    eng.add_target(Target("DoublyLinkedSet.__len__", mod=LL_MOD, qual="DoublyLinkedSet.__len__", self_cls="DoublyLinkedSet",
+        requires=["LL(self)"], ensures=["result == len(D(self))", unchanged]))
